@@ -713,13 +713,17 @@ func genInput(t *rapid.T, kind string) (string, []gen.Row) {
 	return "nt", tiedAlignment(t, false, 2, 10, 4, 40)
 }
 
+// seedSpecials: the values at which a seeding rule could change (sign, zero, the documented -1
+// excluded, 32/64 bit limits)
+var seedSpecials = []int64{0, 1, -2, -12345, math.MinInt64, math.MaxInt64, 2, -3, math.MinInt64 + 1, 1 << 31, -(1 << 31), 1<<32 + 7}
+
 // genSeed draws a --seed value over the whole int64 range, with the values at which a seeding
 // rule could change over-weighted; never -1, which is documented as "the clock"
 func genSeed(t *rapid.T) int64 {
 	var v int64
 	switch rapid.IntRange(0, 3).Draw(t, "seedkind") {
 	case 0:
-		v = rapid.SampledFrom([]int64{0, 1, -2, -12345, math.MinInt64, math.MaxInt64, 2, -3, math.MinInt64 + 1, 1 << 31, -(1 << 31), 1<<32 + 7}).Draw(t, "seedspecial")
+		v = rapid.SampledFrom(seedSpecials).Draw(t, "seedspecial")
 	case 1:
 		v = rapid.Int64Range(-1000, 1000).Draw(t, "seedsmall")
 	default:
@@ -869,7 +873,8 @@ func envInt(name string, def int) int {
 // the quick tier, twelve per shard in the thorough tier), so that each command is covered in every
 // run whatever the random sweep drew. The inputs are examples of the same generator, derived from
 // VERIF_SEED and the shard number; cases come in pairs whose knobs differ by one, so that every
-// two-valued option of a template is run both with and without it.
+// two-valued option of a template is run both with and without it, and the randomised templates
+// take their --seed from the list of special values in turn (each value at least twice per run).
 func TestEveryTemplate(t *testing.T) {
 	if cli.Binary() == "" {
 		t.Skip("no goalign binary")
@@ -878,6 +883,7 @@ func TestEveryTemplate(t *testing.T) {
 	pairs := pbt.Scale(1, 6)
 	pbt.Enumerate(t, fmt.Sprintf("every command template of the table (%d templates) x %d generated input(s), every on/off option both ways", len(templates), 2*pairs),
 		func(yield func(sweepCase) bool) {
+			nrandom := 0
 			for i := range templates {
 				tp := &templates[i]
 				g := rapid.Custom(func(rt *rapid.T) sweepCase { return genSweepFor(rt, tp) })
@@ -887,6 +893,12 @@ func TestEveryTemplate(t *testing.T) {
 					b.Knobs = append([]int{}, a.Knobs...)
 					for k := range b.Knobs {
 						b.Knobs[k]++
+					}
+					if tp.Random {
+						// the randomised templates go through the special seeds in turn
+						a.Seed = seedSpecials[(seed+nrandom)%len(seedSpecials)]
+						b.Seed = seedSpecials[(seed+nrandom+1)%len(seedSpecials)]
+						nrandom += 2
 					}
 					if !yield(a) || !yield(b) {
 						return
